@@ -13,7 +13,7 @@ def run(res, only=None):
     core.replay_bin(res, "tok", cases, cfgs, expect_ops=EXPECT)
     # code -> spec: a random history of getters (written back when they have the register's length, so that compositions are exercised) and
     # with_ setters on every vector type, over random bit patterns, judged event by event by Trace_C16.tla on the same index maps
-    core.record_and_validate(res, "swz", cfgs, draws=4 if res.tier == "quick" else 80, module="Trace_C16", chunks=1, expect_kinds=("swz",))
+    core.record_and_validate(res, "swz", cfgs, draws=20 if res.tier == "quick" else 400, module="Trace_C16", chunks=1, expect_kinds=("swz",))
     res.exhaustive = True
     res.rule = ("all 28+117+336 getter names and 6+36 setter names (TLC asserts the counts) x 4 source registers "
                 "(pairwise-distinct NaN payloads / -0 / subnormal, equal lanes, extremes) replayed bit-for-bit on all "
